@@ -200,7 +200,7 @@ var storeDefs = []storeDef{
 	{Fn: fBimp, Slot: sBg, Guest: true, Exec: mB, Put: "put_g_imp"},  // ... into its global
 	{Fn: fAg, Slot: sBt, Src: mA, Get: "getref", Put: "put_pt"},      // raw A reference into B (B imports A)
 	{Fn: fAg, Slot: sBg, Src: mA, Get: "getref", Put: "put_g"},
-	{Fn: fBk, Slot: sAg, Src: mB, Get: "getref", Put: "put_g"}, // raw B reference into A's global
+	{Fn: fBk, Slot: sAg, Src: mB, Get: "getref", Put: "put_g"},  // raw B reference into A's global
 	{Fn: fAg, Slot: sCt, Src: mA, Get: "getref", Put: "put_pt"}, // no import edge between C and A/B
 	{Fn: fBk, Slot: sCt, Src: mB, Get: "getref", Put: "put_pt"},
 	{Fn: fBimp, Slot: sCt, Src: mB, Get: "getref_imp", Put: "put_pt"},
